@@ -19,6 +19,7 @@ Two independent kinds of verdict:
 import math
 import os
 import re
+import shutil
 
 import common
 import ctl
@@ -101,7 +102,7 @@ def gen_lock(rng, idx, tier, force=None):
     c = base_case(rng, idx, "lock")
     c["T"] = 240 if tier == "quick" else 400
     c["var"] = force.get("var", rng.choice(["d1", "d2", "d3"]))
-    c["periodic"] = force.get("periodic", False)
+    c["periodic"] = force.get("periodic", ("boundary" not in force or force["boundary"] == "none") and rng.random() < 0.12)
     if c["periodic"]:
         c["var"] = "d2"
     if "tsf" in force:
@@ -789,6 +790,9 @@ def gen_thermal(rng, idx):
 
 def run(tier, replay):
     c = common.Check("C17", tier)
+    for d in os.listdir(c.replays):               # stale witnesses of an earlier run with the same seed and tier
+        if d.startswith("s%d_%s_" % (c.seed, tier)):
+            shutil.rmtree(os.path.join(c.replays, d), ignore_errors=True)
     c.use_flavour("plain")
     c.rule = ("distinct = (law, configuration class) with the law evaluated on a complete trajectory; class = boundary kind : friction : "
               "bias kind : run segmentation : time-step factor; laws = lockstep, inside_walls, repeated_step, same_origin, energy, equipartition")
